@@ -233,18 +233,51 @@ func vSubscribeWith(s *spyServer, id int, req *spyv1.SubscribeSignedVAARequest, 
 	}
 }
 
-// publish with a deadline: "nil" | "err" | "panic" | "blocked" (still running; the returned channel yields the late result)
-// vCh finds a subscription's delivery channel by its TYPE (not by field name, so that a rename does not break the harness).
-func vCh(sub *subscription) chan message {
+// vCh finds a subscription's delivery channel by its KIND (not by field or element-type name, so that a rename of either does not
+// break the harness); everything that goes through it uses reflection.
+func vCh(sub *subscription) reflect.Value {
 	v := reflect.ValueOf(sub).Elem()
 	for i := 0; i < v.NumField(); i++ {
-		if f := v.Field(i); f.Type() == reflect.TypeOf((chan message)(nil)) {
-			return *(*chan message)(unsafe.Pointer(f.UnsafeAddr()))
+		if f := v.Field(i); f.Kind() == reflect.Chan {
+			return reflect.NewAt(f.Type(), unsafe.Pointer(f.UnsafeAddr())).Elem()
 		}
 	}
-	panic("verif: subscription holds no `chan message` field")
+	panic("verif: subscription holds no channel field")
 }
 
+// vMsg: a value of the channel's ELEMENT type (whatever it is called) carrying b in its []byte field
+func vMsg(ch reflect.Value, b []byte) reflect.Value {
+	t := ch.Type().Elem()
+	if t == reflect.TypeOf([]byte(nil)) {
+		return reflect.ValueOf(b)
+	}
+	v := reflect.New(t).Elem()
+	for i := 0; i < t.NumField(); i++ {
+		if t.Field(i).Type == reflect.TypeOf([]byte(nil)) {
+			reflect.NewAt(t.Field(i).Type, unsafe.Pointer(v.Field(i).UnsafeAddr())).Elem().SetBytes(b)
+			return v
+		}
+	}
+	panic("verif: the subscription channel's element type holds no []byte field")
+}
+
+// vSendTimeout puts b into the subscription's channel as Publish would; false if there was no room within d
+func vSendTimeout(sub *subscription, b []byte, d time.Duration) bool {
+	ch := vCh(sub)
+	i, _, _ := reflect.Select([]reflect.SelectCase{
+		{Dir: reflect.SelectSend, Chan: ch, Send: vMsg(ch, b)},
+		{Dir: reflect.SelectRecv, Chan: reflect.ValueOf(time.After(d))},
+	})
+	return i == 0
+}
+
+// vTryRecv takes one queued message off the subscription's channel, if there is one
+func vTryRecv(sub *subscription) bool {
+	_, ok := vCh(sub).TryRecv()
+	return ok
+}
+
+// publish with a deadline: "nil" | "err" | "panic" | "blocked" (still running; the returned channel yields the late result)
 func vPublish(s *spyServer, b []byte, deadline time.Duration) (string, chan string) {
 	c := make(chan string, 1)
 	go func() {
@@ -270,9 +303,7 @@ func vPublish(s *spyServer, b []byte, deadline time.Duration) (string, chan stri
 // barrier: put a sentinel straight into the subscription's channel and wait until the client has it; everything published
 // before has then been delivered (channel and handler are FIFO). Returns the messages received before the sentinel.
 func vBarrier(vs *vSub, deadline time.Duration) ([][]byte, bool) {
-	select {
-	case vCh(vs.sub) <- message{vaaBytes: vSentinel}:
-	case <-time.After(deadline):
+	if !vSendTimeout(vs.sub, vSentinel, deadline) {
 		return vs.stream.take(), false
 	}
 	end := time.After(deadline)
@@ -531,15 +562,15 @@ func (h *vHarness) deliverySequence(scale int) {
 			stop := make(chan struct{})
 			// every channel in the server's table, including subscriptions the harness was told were refused: the stuck
 			// Publish holds the mutex, so nobody writes the map while this snapshot is taken
-			var chans []chan message
+			var chans []*subscription
 			for _, sub := range s.subs {
-				chans = append(chans, vCh(sub))
+				chans = append(chans, sub)
 			}
 			// ... and of every subscription this sequence ever registered, also those that have left (code that keeps a
 			// reference to a departed subscription can be stuck on its channel)
 			for _, x := range subs {
 				if x.sub != nil {
-					chans = append(chans, vCh(x.sub))
+					chans = append(chans, x.sub)
 				}
 			}
 			go func() {
@@ -550,10 +581,7 @@ func (h *vHarness) deliverySequence(scale int) {
 					default:
 					}
 					for _, c := range chans {
-						select {
-						case <-c:
-						default:
-						}
+						vTryRecv(c)
 					}
 					time.Sleep(time.Millisecond)
 				}
@@ -600,10 +628,7 @@ func (h *vHarness) deliverySequence(scale int) {
 			x.stream.mu.Lock()
 			x.stream.fail = true
 			x.stream.mu.Unlock()
-			select { // something to send, so that the handler meets the broken transport
-			case vCh(x.sub) <- message{vaaBytes: vSentinel}:
-			case <-time.After(h.deadline):
-			}
+			vSendTimeout(x.sub, vSentinel, h.deadline) // something to send, so that the handler meets the broken transport
 		} else {
 			x.stream.cancel()
 		}
@@ -679,10 +704,7 @@ func vDrainAll(stop chan struct{}, subs ...*vSub) {
 			if x == nil || x.sub == nil || x.stream.ctx.Err() == nil {
 				continue // only subscribers that have disconnected: the others read for themselves
 			}
-			select {
-			case <-vCh(x.sub):
-			default:
-			}
+			vTryRecv(x.sub)
 		}
 		time.Sleep(200 * time.Microsecond)
 	}
